@@ -866,8 +866,10 @@ def do_format(r, name):
     lens = r.lens_of(ent, use)
     for b, ls in zip(use, lens):
         large = len(b) > 2000
+        huge = len(b) > 1000000
         for kind, m in V.mutants(b, ls, ctx.rng, small_limit=ctx.pick(160, 400), all_bytes=not large,
-                                 max_trunc=None if len(b) <= 600 else ctx.pick(6, 16), few=large and not ctx.thorough()):
+                                 max_trunc=None if len(b) <= 600 else (2 if huge else ctx.pick(6, 16)),
+                                 few=huge or (large and not ctx.thorough())):
             r.bytes_case(ent, kind, m)
     r.flush()
 
